@@ -161,13 +161,16 @@ def check(prop, tier, seed):
             tail = '' if nres and nres.get('reproduced') else ' no-failing-input-found'
             violations.append('VIOLATION property=%s replay=%s obligation="%s"%s' % (prop, os.path.relpath(path, VERIF), o['id'][:160], tail))
     for s in static:
+        if not s['ok'] and s.get('kind', 'pattern') == 'pattern':
+            # a one-line body the lowering relies on no longer has the expected shape: the justification of a rule is gone -> undecided, not a verdict
+            undecided.append('static/%s: pattern fact no longer matches (%s)' % (s['id'], s.get('detail')))
+            continue
         all_obl.append(dict(id='static/' + s['id'], status='SUCCESS' if s['ok'] else 'FAILURE', desc=s['desc'], unit='static', fn='scan', prop='static'))
         if not s['ok']:
             path = write_replay(prop, type('J', (), dict(unit='static', fn='scan', info={}, cmds=['python scan']))(),
                                 dict(id='static/' + s['id'], prop='static', desc=s['desc'], line=s.get('line'), trace=[]), None,
                                 dict(detail=s.get('detail')))
             violations.append('VIOLATION property=%s replay=%s obligation="static/%s" no-failing-input-found' % (prop, os.path.relpath(path, VERIF), s['id']))
-
     extra = {}
     if tier == 'thorough' and not violations:
         extra = thorough_extras(prop, units, jobs, src, undecided)
